@@ -40,13 +40,17 @@ ENTITIES = [('&amp;', '&'), ('&lt;', '<'), ('&gt;', '>'), ('&quot;', '"'), ('&co
             ('&ouml;', 'ö'), ('&#42;', '*'), ('&nbsp;', '\u00a0')]
 INFOS = ['', '', 'py', 'c++ extra', 'sh', 'x-y', 'a&amp;b', 'lang\\*']
 CODE_LINES = ['x = 1', '  indented', '', '*not em*', '<b>', '> q', '- l', '    four', '# h', 'a & b', '```', '~~~', '    ```', '    ~~~~~~', '1. x', '[a]: b',
-              '| a |', '***', 'tail  ', '\\', '&amp;']
+              '| a |', '***', 'tail  ', '\\', '&amp;',
+              # lines that begin like a closing fence but are not one (text after the run): they need no longer fence
+              '```x', '~~~ y', '```` `', '~~~~~~ ~', '   ', '      ']
 HTML_BLOCKS = [
     (6, ['<div>', 'text *x*', '</div>']), (2, ['<!-- c', '', 'more -->']), (1, ['<pre>', '  a', '', 'b', '</pre>']),
     (6, ['<table><tr><td>', 'x', '</td></tr></table>']), (3, ['<?php echo 1; ?>']), (7, ['<my-tag attr="v">', 'inner']),
     (4, ['<!DOCTYPE html>']), (5, ['<![CDATA[', 'x', '', ']]>']), (1, ['<script>', 'a < b', '</script>']), (6, ['</section>']),
     (7, ['</custom>']), (6, ['<p align="x">', '*not emphasis*']), (2, ['<!-- one line -->']), (1, ['<style>p{}</style>']),
     (1, ['<textarea>', '', '</textarea>']), (6, ['<hr />']),
+    # tag names are matched in any case
+    (1, ['<SCRIPT>', '', 'a', '</SCRIPT>']), (1, ['<Pre>', '', '*x*', '</PRE>']), (6, ['<DIV>', 'y', '</DIV>']), (1, ['<STYLE>', '', 'p{}', '</style>']),
 ]
 MARKER_LIKE = ['> q', '# h', '- l', '+ p', '1. x', '2) y', '***', '---', '[a]: b', '===', '>']
 LABELS = ['foo', 'bar', 'Baz', 'long label', 'x1', 'ẞtraße', 'Σίσυφος', 'mixed Case Label', 'q']
